@@ -364,8 +364,14 @@ impl<'arena> PrettyFormatter<'arena> {
 
     /// Render one complete source unit with a trailing newline.
     pub fn render_unit(&self, unit: SourceUnit) -> String {
+        self.try_render_unit(unit).unwrap()
+    }
+
+    /// Render one complete source unit with a trailing newline, or report that
+    /// no layout satisfies the line-start guards of its block constructs.
+    pub fn try_render_unit(&self, unit: SourceUnit) -> Result<String, std::fmt::Error> {
         let document = self.with_trailing_comments(unit.root.into(), unit.pretty(self));
-        self.render_doc(document.append(RcDoc::hardline()))
+        self.try_render_doc(document.append(RcDoc::hardline()))
     }
 
     /// Render one term without adding a trailing newline.
@@ -387,9 +393,13 @@ impl<'arena> PrettyFormatter<'arena> {
     }
 
     fn render_doc(&self, document: RcDoc<'arena>) -> String {
+        self.try_render_doc(document).unwrap()
+    }
+
+    fn try_render_doc(&self, document: RcDoc<'arena>) -> Result<String, std::fmt::Error> {
         let mut output = String::new();
-        document.render_fmt(self.options.line_width, &mut output).unwrap();
-        output
+        document.render_fmt(self.options.line_width, &mut output)?;
+        Ok(output)
     }
 
     fn with_leading_comments(&self, entity: EntityId, document: RcDoc<'arena>) -> RcDoc<'arena> {
